@@ -147,10 +147,13 @@ func targetsFromGroup(tg *targetgroup.Group, cfg *config.ScrapeConfig) ([]*SDTar
 		if lbls != nil || origLabels != nil {
 			tar := scrape.NewTarget(lbls, origLabels, cfg.Params)
 			hash := targetHash(lbls, tar.URL().String())
-			if exists[hash] {
-				continue
+			// dropped targets have no labels and would all share one hash
+			if lbls != nil {
+				if exists[hash] {
+					continue
+				}
+				exists[hash] = true
 			}
-			exists[hash] = true
 			targets = append(targets, &SDTargets{
 				Job:        cfg.JobName,
 				PromTarget: tar,
